@@ -1,6 +1,7 @@
 package regexp2
 
 import (
+	"math"
 	"sync"
 	"sync/atomic"
 	"time"
@@ -44,6 +45,13 @@ func (t fasttime) reached() bool {
 
 // makeDeadline returns a time that is approximately time.Now().Add(d)
 func makeDeadline(d time.Duration) fasttime {
+	// d+clockPeriod overflows for timeouts within a clock period of
+	// math.MaxInt64, which would put the deadline in the past.
+	timeout := d + clockPeriod
+	if timeout < d {
+		timeout = math.MaxInt64
+	}
+
 	// clockEnd must be read before current: a stopped clock always has
 	// current > clockEnd, so a stale current can never take the fast path,
 	// even if another goroutine restarts the clock between the two reads.
@@ -51,7 +59,7 @@ func makeDeadline(d time.Duration) fasttime {
 
 	// Increase the deadline since the clock we are reading may be
 	// just about to tick forwards.
-	end := fast.current.read() + durationToTicks(d+clockPeriod)
+	end := fast.current.read() + durationToTicks(timeout)
 
 	// Start or extend clock if necessary.
 	if end > clockEnd {
@@ -66,7 +74,7 @@ func makeDeadline(d time.Duration) fasttime {
 		// recalculate our end value: the current we read above may have been
 		// stale even if the clock is running by now, because another
 		// goroutine may have restarted it after we read it
-		end = fast.current.read() + durationToTicks(d+clockPeriod)
+		end = fast.current.read() + durationToTicks(timeout)
 		fast.mu.Unlock()
 		extendClock(end)
 	}
